@@ -408,6 +408,11 @@ def hostile_payloads(ctx, rng, n):
                     outcome = "dispatch-raised:" + type(e1).__name__
             ctx.count("hostile_payloads")
             ctx.count("hostile_" + outcome.split(":")[0])
+            built = res._obj if res._is_ready and res._is_exc else None
+            if built is not None and not isinstance(built, (BaseException, str)) and not (isinstance(built, type) and issubclass(built, BaseException)):
+                ctx.violation("C09/hostile/non-exception-object-built", "a crafted exception record made the receiver build an instance of %s.%s, "
+                              "which is not an exception" % (type(built).__module__, type(built).__mro__[1].__name__ if len(type(built).__mro__) > 1 else type(built).__name__),
+                              dict(payload=repr(payload)[:300], outcome=outcome))
             wit = dict(payload=repr(payload)[:300], outcome=outcome)
             if len(log) != n_log:
                 ctx.violation("C09/hostile/module-executed", "a crafted exception record made the receiver import/execute a module (%r)" % (log[n_log:],), wit)
@@ -437,7 +442,7 @@ def run(ctx):
     if not ctx.enough():
         canary_import_cases(ctx, rng, ctx.budget(16, 3200))
     if not ctx.enough():
-        hostile_payloads(ctx, rng, ctx.budget(600, 400000))
+        hostile_payloads(ctx, rng, ctx.budget(2500, 400000))
     ctx.sample({"classes": [c.__name__ for c in classes[:12]]})
     if not ctx.counters["exceptions_received"]:
         ctx.inconclusive("no exception was observed")
